@@ -632,6 +632,8 @@ def solver_problem_tokens(rng, ns, rxns, ncells, kind, special=False, clamp=1, s
             y0[i] = float("inf")
         elif what == "neg_y":
             y0[i] = -abs(y0[i]) - 0.5
+            if i % 2 == 0:
+                dt = 0.0      # a Solve over an empty interval (last pass of a sub-stepping loop) still clamps
         elif what == "huge_y":
             y0[i] = 1e300
         elif what == "nan_k":
@@ -678,6 +680,38 @@ def gen_slv_cfg(rng, tier, purpose, n_quick, n_thorough):
         out.append(" ".join(t))
     if purpose in ("c09", "c12"):
         out += _hub_cases(rng, purpose)
+    if purpose in ("c09", "c12", "c14"):
+        out += _many_product_cases(rng, purpose)
+    return out
+
+
+def _many_product_cases(rng, purpose):
+    """reactions with four to six products, all yields different, and a species listed twice among the products:
+    A -> 0.1 B + 0.2 C + 0.3 D + 0.4 E (+ ...), B + C -> D + D ; the number of molecules is conserved"""
+    out = []
+    for kind in ("slvr", "slvb"):
+        for nprod in (4, 5, 6):
+            ns = nprod + 1
+            names = list(range(200, 200 + ns))
+            atol = [-1.0] * ns
+            # dyadic yields, all different, adding up to exactly one molecule
+            ys = {4: [1, 2, 5, 8], 5: [1, 2, 3, 4, 6], 6: [1, 2, 3, 4, 6, 16]}[nprod]
+            ys = [y / float(sum(ys)) for y in ys]
+            rxns = [(0, [(0, 0)], [(j + 1, ys[j]) for j in range(nprod)]),
+                    (0, [(1, 0), (2, 0)], [(3, 1.0), (3, 1.0)])]
+            w = [1.0] * ns
+            ncells = rng.choice([1, 3, 5])
+            y0 = [rng.choice([0.5, 1.0, 2.0]) for _ in range(ncells * ns)]
+            k = [rng.choice([0.05, 0.5, 2.0]) for _ in range(ncells) for _ in rxns]
+            pt = [str(ncells), str(rng.randrange(5)), fnum(300.0), fnum(101325.0), fnum(rng.choice([0.1, 1.0, 10.0])), "2", fnum(1e-6), fnum(0.0),
+                  "0" if purpose == "c09" else "1"]
+            pt += [fnum(v) for v in y0] + [fnum(v) for v in k]
+            ncfg = 1 if purpose == "c09" else 3
+            cfgs = []
+            for j in range(ncfg):
+                cfgs += rand_config(rng, ns, L=(0 if j == 0 else None), identity_order=(purpose != "c14"))
+            t = [kind, "cfg"] + solver_mech_tokens(names, atol, rxns) + pt + [fnum(x) for x in w] + [str(ncfg)] + cfgs
+            out.append(" ".join(t))
     return out
 
 
